@@ -67,7 +67,10 @@ def first_bytes(cls, ser, rng):
         # no object is registered under any of these: a plain unknown name, near misses of a registered one, and values that are
         # falsy or not even text
         oid = rng.choice(["nonexistent-object", "", None, 0, False, [], "Target", "target ", "target\x00", " target", 5, ["target"],
-                          {"object": "target"}, "Pyro.daemon", "nonexistent-object"])
+                          {"object": "target"}, "Pyro.daemon", "nonexistent-object",
+                          # ids that used to be registered, and were connected to, earlier in the daemon's life: a weakly registered
+                          # object that has been collected since, an object that was unregistered
+                          "gone-weak", "gone-unreg", "gone-weak", "gone-unreg"])
         return L.connect_msg(oid, "hello", ser, seq=seq)
     if cls == "connect_bad_payload":
         variants = [s.dumps(["not", "a", "dict"]), s.dumps({"object": "target"}), s.dumps("hello"), b"\xff\xfe\x00garbage-payload",
@@ -140,6 +143,23 @@ def run_scenarios(scens, servertype, timeout, seed, validator_install="class"):
         sc = S.CUR
         lab = L.Lab(servertype=servertype, commtimeout=timeout, validator_install=validator_install)
         lab.daemon.register(make_target(lab)(), "target")
+        # two ids that were registered and in use once, and are not any more
+        import gc
+        was = lab.validator
+        lab.validator = "accept"
+        tmp_weak, tmp_unreg = make_target(lab)(), make_target(lab)()
+        lab.daemon.register(tmp_weak, "gone-weak", weak=True)
+        lab.daemon.register(tmp_unreg, "gone-unreg")
+        for oid in ("gone-weak", "gone-unreg"):
+            with lab.P.Proxy(lab.daemon.uriFor(oid)) as px:
+                px._pyroBind()
+            sc.quiesce()
+        lab.daemon.unregister("gone-unreg")
+        del tmp_weak, tmp_unreg
+        gc.collect()
+        if {"gone-weak", "gone-unreg"} & set(lab.daemon.objectsById):
+            raise util.MachineryError("the formerly registered objects are still registered")
+        lab.validator = was
         for scen in scens:
             ser = scen["ser"]
             lab.base = len(lab.net.socks)
@@ -194,6 +214,73 @@ def run_scenarios(scens, servertype, timeout, seed, validator_install="class"):
     return traces
 
 
+def run_proxy_peers(servertype):
+    """the peer is a real Proxy: what it is told when its connection is refused - by the validator, for an unknown object, for
+    lack of a free worker - must carry the daemon's reason, whichever serializer the proxy uses (the daemon answers in a
+    serializer of its own choice when it refuses before it has read the proxy's)"""
+    traces, metas = [], []
+
+    def main():
+        sc = S.CUR
+        from Pyro5 import errors
+        for full in ((False, True) if servertype == "thread" else (False,)):
+            lab = L.Lab(servertype=servertype, poolsize=2 if full else 6)
+            lab.daemon.register(make_target(lab)(), "target")
+            P = lab.P
+            holders = []
+            if full:
+                for _ in range(2):
+                    h = P.Proxy(lab.daemon.uriFor("target"))
+                    h._pyroBind()
+                    holders.append(h)
+                sc.quiesce()
+            for ser in ("serpent", "json", "marshal", "msgpack"):
+                for why in (("pool",) if full else ("raise:ValueError", "raise:SecurityError", "raise:KeyError", "unknown")):
+                    lab.base = len(lab.net.socks)
+                    lab.log = []
+                    sc.set_budget(4000)
+                    lab.validator = why if why.startswith("raise:") else "accept"
+                    token = {"pool": "no free workers", "unknown": "unknown object"}.get(why, "token-7731")
+                    uri = lab.daemon.uriFor("target") if why != "unknown" else str(lab.daemon.uriFor("target")).replace("target", "nonexistent")
+                    p = P.Proxy(uri)
+                    p._pyroSerializer = ser
+                    first, reason, hang = "ok", False, False
+                    try:
+                        p._pyroBind()
+                    except S.Hang:
+                        hang = True
+                    except errors.CommunicationError as x:
+                        first = "fail"
+                        reason = token in str(x)
+                    except Exception as x:
+                        first = "other:" + type(x).__name__
+                    lab.log.insert(0, {"e": "First", "c": 1, "accept": False, "mustreason": True})
+                    try:
+                        sc.quiesce()
+                    except S.Hang:
+                        hang = True
+                    srv = lab.net.socks[lab.base][1] if len(lab.net.socks) > lab.base else None
+                    tr = [e for e in lab.log if e["e"] != "Validate"]
+                    tr.append({"e": "Snap", "c": 1, "srvclosed": bool(srv is not None and srv.closed), "first": first if first in ("ok", "fail") else "other",
+                               "reason": bool(reason), "mustreason": True, "checkfirst": True, "alive_sessions": 0, "text": first})
+                    tr.append({"e": "Ended", "c": 1})
+                    tr.append({"e": "End", "slots": lab.server_connections() - len(holders), "open": 0, "loop_alive": lab.driver.crashed is None,
+                               "witness_ok": True, "fresh_ok": True, "hang": hang})
+                    traces.append(tr)
+                    metas.append({"first": "proxy_peer:" + why, "validator": lab.validator, "server": servertype, "ser": ser, "accept": False,
+                                  "pipe": [], "proxy_peer": True})
+                    try:
+                        p._pyroRelease()
+                    except Exception:
+                        pass
+            for h in holders:
+                h._pyroRelease()
+            sc.quiesce()
+            lab.close()
+    memnet.run(main, max_steps=2000000)
+    return traces, metas
+
+
 def run(ctx):
     memnet.install()
     ctx.rule = ("cases = (first message class x validator behaviour x pipelined messages from Gen_Hs) x serializer x server type x "
@@ -226,6 +313,12 @@ def run(ctx):
         js = [j for j in jobs[st] if j["first"].startswith("connect")][::ctx.pick(3, 1)]
         traces += run_scenarios(js, st, 0.0, ctx.seed, validator_install="instance")
         metas += [dict(j, timeout=0.0, install="instance") for j in js]
+    for st in ("multiplex", "thread"):
+        t2, m2 = run_proxy_peers(st)
+        if len(t2) < 16:
+            raise util.MachineryError("the proxy-peer pass ended early")
+        traces += t2
+        metas += m2
     for m in metas:
         ctx.count(json.dumps(m, sort_keys=True) if not m["accept"] else None)
     for i in (0, len(traces) // 2, len(traces) - 1):
